@@ -279,3 +279,21 @@ claim(
     '',
     'exception-escape analysis over a type-resolved call graph with language/interval discharges',
 )
+
+claim(
+    'C08',
+    'Decided (sufficient modulo the catalogue and the trusted base): over the functions reachable from select, '
+    'select_one, iselect, match, filter and closest in the type-resolved call graph, the only explicit raise that can '
+    'propagate to the API is the documented TypeError of assert_valid_input; every int/float/chr/datetime/decode/next/'
+    're.compile site and every possibly-unbound local is discharged (handler at the site or around a call site on the '
+    "way up, inclusion of the regex group in the conversion's domain incl. the 4300-digit limit, interval of the year "
+    'argument of datetime(), errors= on decode); every util.lower() call in that code receives a value whose type '
+    'excludes None (mypy types refined by the nullable-passthrough summary of get_attribute_by_name, which is itself '
+    'checked); values from get_parent() are not dereferenced while possibly None; every ancestor/sibling walk advances '
+    'or sets a tested variable on every path back to its head, and no walk loop returns to its head with an identical '
+    'environment in the scenario "element without parent or siblings" (None-propagation through the package\'s own '
+    'accessors: definite non-termination). Not decided: termination of the arithmetic loops of match_nth; exceptions '
+    'from operations outside the catalogue.',
+    '',
+    'exception-escape analysis + nullable-argument type rule + walk-progress path rule + None-propagation',
+)
